@@ -52,14 +52,20 @@ func genC40(tier string, seed uint64, idx int) *simkit.Plan {
 		if faults && rng.Chance(1, 2) {
 			frate = rng.Range(1, 3) // how many of ten replica messages get a fault
 		}
+		// a replica that is unreachable for the first k replica requests of the operation: 3 = the primary's own
+		// retries are used up and the CLIENT retries the whole operation, 9 = every client attempt fails
+		failn := 0
+		if faults && rng.Chance(1, 4) {
+			failn = []int{1, 3, 3, 4, 6, 9}[rng.Intn(6)]
+		}
 		switch x := rng.Intn(10); {
 		case x < 6 || puts == 0:
 			puts++
-			p.Add(simkit.St("put", rng.Uint64(), "size", []int{1, 30, 200, 2000, 20000}[rng.Intn(5)], "kind", rng.Intn(5), "pairs", rng.Intn(3), "ttl", rng.Intn(4), "ts", rng.Intn(3), "cm", rng.Intn(8)/7, "frate", frate))
+			p.Add(simkit.St("put", rng.Uint64(), "size", []int{1, 30, 200, 2000, 20000}[rng.Intn(5)], "kind", rng.Intn(5), "pairs", rng.Intn(3), "ttl", rng.Intn(4), "ts", rng.Intn(3), "cm", rng.Intn(8)/7, "frate", frate, "failn", failn))
 		case x < 8:
-			p.Add(simkit.St("overwrite", rng.Uint64(), "i", rng.Intn(puts), "size", []int{1, 30, 2000}[rng.Intn(3)], "kind", rng.Intn(5), "frate", frate))
+			p.Add(simkit.St("overwrite", rng.Uint64(), "i", rng.Intn(puts), "size", []int{1, 30, 2000}[rng.Intn(3)], "kind", rng.Intn(5), "frate", frate, "failn", failn))
 		default:
-			p.Add(simkit.St("del", rng.Uint64(), "i", rng.Intn(puts), "frate", frate))
+			p.Add(simkit.St("del", rng.Uint64(), "i", rng.Intn(puts), "frate", frate, "failn", failn))
 		}
 	}
 	return p
@@ -114,6 +120,7 @@ func execC40(r *simkit.Run) {
 	pump := func(st *simkit.Step, op func() error) error {
 		rng := simkit.StepRand(st, 9)
 		frate := int(st.Int("frate"))
+		failn, replReqs := int(st.Int("failn")), 0
 		n.Gate("HTTP POST", "HTTP DELETE")
 		defer n.Ungate()
 		done := make(chan error, 1)
@@ -143,7 +150,14 @@ func execC40(r *simkit.Run) {
 			}
 			msg := pend[rng.Intn(len(pend))]
 			verdict := Verdict{Kind: "ok"}
-			if strings.HasSuffix(msg.Method, "#replicate") && frate > 0 && rng.Intn(10) < frate {
+			if strings.HasSuffix(msg.Method, "#replicate") && msg.Phase == "req" {
+				replReqs++
+			}
+			if strings.HasSuffix(msg.Method, "#replicate") && msg.Phase == "req" && replReqs <= failn {
+				verdict.Kind = "drop"
+				r.Fault("replica-req-drop")
+				r.Fault("replica-unreachable-for-first-requests")
+			} else if strings.HasSuffix(msg.Method, "#replicate") && frate > 0 && rng.Intn(10) < frate {
 				switch rng.Intn(3) {
 				case 0:
 					if msg.Phase == "req" {
